@@ -92,6 +92,15 @@ def r2_counts(ctx) -> None:
     rets = [r for r in ast.walk(call) if isinstance(r, ast.Return)]
     ok = ok and len(rets) == 1 and u(rets[0].value) == "call_n"
     ctx.check(ok, "C16.R2", "DfBase.call: handle carries call_op.num_out", dfile, call.lineno, "", call)
+    from ..nf import NF as _NF
+    _nf = _NF(prog)
+    callc = prog.cls("hugr.ops.Call")
+    k_, nm = callc.find_method("num_out")
+    got = [t for _, t, _ in _nf.method_alts(callc, "num_out")]
+    want = _nf.expr_nf("len(self.instantiation.output)", callc)[0]
+    ctx.check(all(t == want for t in got), "C16.R2", "hugr.ops.Call.num_out: outputs of the instantiated signature", callc.module.path, nm.lineno,
+              "the count stored in a call's handle is Call.num_out: it must be the number of outputs of the instantiated signature (the polymorphic body can have another arity)",
+              nm, expected=show(want), found="; ".join(show(t) for t in got))
     ld = df.methods["load"]
     ok = any(isinstance(s, ast.Assign) and u(s) == "load = self.add(load_op())" for s in ast.walk(ld)) and u([r for r in ast.walk(ld) if isinstance(r, ast.Return)][-1].value) == "load"
     ctx.check(ok, "C16.R2", "DfBase.load: handle from add", dfile, ld.lineno, "", ld)
@@ -213,6 +222,9 @@ def run(ctx) -> None:
     r1_identity(ctx)
     r2_counts(ctx)
     r3_protocol(ctx)
+    from .. import lints
+    lints.arm(ctx)
+
 
 
 # ---------------------------------------------------------------------------------------
